@@ -226,8 +226,20 @@ pub fn c04_cells(tier: Tier) -> Vec<Value> {
                     let c = bcfg(base_cfg(role, len, blk, ws), ra, at, da);
                     let blocks = len / blk + 1;
                     // three faults on the longest transfers are kept for the thorough tier's small windows
-                    let fb = if f == 3 && (ws > 2 || blocks > 5) { 2 } else if tier == Tier::Quick && blocks > 5 { 1 } else { f };
-                    cells.push(bspec(&c, fb, &p));
+                    let fb = if tier == Tier::Thorough {
+                        // four faults on the shortest lock-step/2-window transfers with the standard peer, three wherever the transfer is short
+                        if ws <= 2 && blocks <= 3 && (ra, at, da) == (true, true, false) { 4 } else if blocks <= 5 { 3 } else { 2 }
+                    } else if blocks > 5 { 1 } else { f };
+                    if fb >= 4 {
+                        for sh in 0..16 {
+                            let mut v = bspec(&c, fb, &p);
+                            v["max_exec"] = json!(40_000_000u64);
+                            v["shard"] = json!([sh, 16]);
+                            cells.push(v);
+                        }
+                    } else {
+                        cells.push(bspec(&c, fb, &p));
+                    }
                     // a peer whose own timer is faster than the worker's (only peers that emit something on their timer)
                     if at || role == Role::Receiver {
                         let mut cf = c.clone();
